@@ -2,8 +2,19 @@
   C07 — control flow executes statements in exactly the documented order, at any nesting.
   The documented semantics as equations on the evaluator (each holds for every program, state
   and fuel), plus the absorption facts from the signal-discipline theorem.
+
+  Part 2 (below the one-step laws): WHOLE-LOOP theorems against the specification
+  `Spec/Loops.lean` — `while` / `for` = "repeat a round until it says stop" (`Repeats`, unrolled
+  into `Rounds k` + a final round), for-in = a fold with early exit over the items the iterable
+  held when the loop started (`iterate`) —, for the real evaluator at ANY fuel ("out of fuel" is
+  a separate outcome and never counts as a result; fuel monotonicity makes the fuel-free reading
+  well defined); the innermost-loop discipline and `return` for every nesting (`Leads`); the
+  dangling `else` on token lists.
 -/
 import Jqawk.Props.C01
+import Jqawk.Lemmas.LoopsNest
+import Jqawk.Lemmas.LoopsElse
+import Jqawk.Lemmas.Order
 
 namespace Jqawk.C07
 open Jqawk
@@ -140,5 +151,802 @@ theorem no_return_yields_null (body : EM Unit) (s s1 : St) (h : body s = .ok () 
 theorem next_exit_through_call (body : EM Unit) (s s1 : St) (g : Sig) (hg : g = .next ∨ g = .exit)
     (h : body s = .err (.sig g) s1) : catchReturn body s = .err (.sig g) s1 := by
   rcases hg with rfl | rfl <;> simp [catchReturn, h]
+
+
+/-! # Part 2: whole loops, every nesting -/
+
+section whole
+open Jqawk.Spec
+
+/-! ## 0. fuel is irrelevant: the fuel-free reading of the evaluator -/
+
+/-- `st`, started in `s`, ends with `r` (a value / error / signal — never "out of fuel") -/
+def Runs (st : Stmt) (s : St) (r : Res Unit) : Prop := ∃ n, evalStmt prog n st s = r ∧ r ≠ .oof
+
+/-- **Fuel monotonicity**: more fuel never changes a result that is not "out of fuel"
+    (`Lemmas/LoopsMono.lean`, for all fifteen mutually recursive evaluator functions). -/
+theorem fuel_irrelevant {n m : Nat} (hnm : n ≤ m) (st : Stmt) (s : St) (r : Res Unit)
+    (h : evalStmt prog n st s = r) (hr : r ≠ .oof) : evalStmt prog m st s = r := by
+  rw [(evalStmt_le prog st hnm).eq_of_ne_oof (by rw [h]; exact hr), h]
+
+/-- the same for expressions -/
+theorem fuel_irrelevant_expr {n m : Nat} (hnm : n ≤ m) (e : Expr) (s : St) (r : Res CellId)
+    (h : evalExpr prog n e s = r) (hr : r ≠ .oof) : evalExpr prog m e s = r := by
+  rw [(evalExpr_le prog e hnm).eq_of_ne_oof (by rw [h]; exact hr), h]
+
+/-- hence a statement has at most one result -/
+theorem runs_unique (st : Stmt) (s : St) (r r' : Res Unit) (h : Runs prog st s r)
+    (h' : Runs prog st s r') : r = r' := by
+  obtain ⟨n, h1, h2⟩ := h
+  obtain ⟨m, h3, h4⟩ := h'
+  have a := fuel_irrelevant prog (Nat.le_max_left n m) st s r h1 h2
+  have b := fuel_irrelevant prog (Nat.le_max_right n m) st s r' h3 h4
+  rw [← a, ← b]
+
+/-! ## 1a. `while (c) body` = repeat the round "test; body" until it says stop -/
+
+/-- **while, soundness**: a result of `while (c) body` (at any fuel, not "out of fuel") is the
+    result of repeating the round `whileRound` — test `c`; if it holds run `body`; go on after
+    completion or `continue`, stop after `break` or a failed test, fail with anything else —
+    with the evaluator at that fuel inside the round. -/
+theorem while_sound (n : Nat) (c : Expr) (body : Stmt) (s : St) (r : Res Unit)
+    (h : evalStmt prog n (.while_ c body) s = r) (hr : r ≠ .oof) :
+    Repeats (whileRoundAt prog n c body) s r := by
+  cases n with
+  | zero => unfold evalStmt at h; exact absurd h.symm hr
+  | succ n =>
+    rw [while_spec] at h
+    exact (whileLoop_sound prog c body n s r h hr).mono (whileRoundAt_mono prog c body n)
+
+/-- **while, completeness**: conversely every result of repeating the round is the result of the
+    statement for all sufficiently large fuels. -/
+theorem while_complete (m : Nat) (c : Expr) (body : Stmt) (s : St) (r : Res Unit)
+    (h : Repeats (whileRoundAt prog m c body) s r) : Runs prog (.while_ c body) s r := by
+  obtain ⟨n, hn⟩ := whileLoop_complete prog c body m s r h
+  exact ⟨n + 1, by rw [while_spec]; exact hn, h.ne_oof⟩
+
+/-- **while unrolled** (the least fixed point, `k` = number of completed-or-continued
+    iterations): the statement has result `r` iff for some `k` there are `k` rounds that answer
+    "go on" one after the other — `(c; body)^k` in this order — and the round after them ends
+    the loop with `r`: `c` false (normal end), `break` in the body (normal end), or an error /
+    `return` / `next` / `exit` in `c` or the body (the loop ends with it). -/
+theorem while_unrolled (c : Expr) (body : Stmt) (s : St) (r : Res Unit) :
+    Runs prog (.while_ c body) s r ↔
+      ∃ m k sk, Rounds (whileRoundAt prog m c body) k s sk ∧ FinalRound (whileRoundAt prog m c body) sk r := by
+  constructor
+  · rintro ⟨n, h, hr⟩
+    obtain ⟨k, sk, h1, h2⟩ := (repeats_iff_rounds _ _ _).mp (while_sound prog n c body s r h hr)
+    exact ⟨n, k, sk, h1, h2⟩
+  · rintro ⟨m, k, sk, h1, h2⟩
+    exact while_complete prog m c body s r ((repeats_iff_rounds _ _ _).mpr ⟨k, sk, h1, h2⟩)
+
+/-- what a round that answers "go on" is, on the evaluator: the test evaluates to a truthy
+    value, then the body completes or ends with `continue` -/
+theorem while_round_goes_on (m : Nat) (c : Expr) (body : Stmt) (s s2 : St) :
+    whileRoundAt prog m c body s = .ok true s2 ↔
+      ∃ cell s1, evalExpr prog m c s = .ok cell s1 ∧ (s1.heap.get cell).truthy = true ∧
+        (evalStmt prog m body s1 = .ok () s2 ∨ evalStmt prog m body s1 = .err (.sig .cont) s2) := by
+  unfold whileRoundAt
+  rw [whileRound_true_iff]
+  simp only [truthyOf_ok_iff]
+  constructor
+  · rintro ⟨s1, ⟨cell, h1, h2⟩, h3⟩; exact ⟨cell, s1, h1, h2, h3⟩
+  · rintro ⟨cell, s1, h1, h2, h3⟩; exact ⟨s1, ⟨cell, h1, h2⟩, h3⟩
+
+/-- **k iterations, normal end**: if `k` rounds go on and then the test is falsy, the loop ends
+    normally in the state after that last test — its effect is `(c; body)^k; c`, for every fuel
+    above `m + k + 1` -/
+theorem while_k_iterations (m k : Nat) (c : Expr) (body : Stmt) (s sk s' : St) (cell : CellId)
+    (hk : Rounds (whileRoundAt prog m c body) k s sk)
+    (hc : evalExpr prog m c sk = .ok cell s') (hf : (s'.heap.get cell).truthy = false)
+    (n : Nat) (hn : m + k + 1 < n) : evalStmt prog n (.while_ c body) s = .ok () s' := by
+  obtain ⟨n', rfl⟩ : ∃ n', n = n' + 1 := ⟨n - 1, by omega⟩
+  rw [while_spec]
+  refine whileLoop_of_rounds prog c body m k s sk _ hk (.inl ⟨s', ?_, rfl⟩) n' (by omega)
+  exact (whileRound_false_iff _ _ _ _).mpr (.inl ((truthyOf_ok_iff _ _ _ _).mpr ⟨cell, hc, hf⟩))
+
+/-- **`break` in iteration k+1** ends the loop normally, in the state `break` was raised in -/
+theorem while_break_at (m k : Nat) (c : Expr) (body : Stmt) (s sk s1 s' : St) (cell : CellId)
+    (hk : Rounds (whileRoundAt prog m c body) k s sk)
+    (hc : evalExpr prog m c sk = .ok cell s1) (ht : (s1.heap.get cell).truthy = true)
+    (hb : evalStmt prog m body s1 = .err (.sig .brk) s')
+    (n : Nat) (hn : m + k + 1 < n) : evalStmt prog n (.while_ c body) s = .ok () s' := by
+  obtain ⟨n', rfl⟩ : ∃ n', n = n' + 1 := ⟨n - 1, by omega⟩
+  rw [while_spec]
+  refine whileLoop_of_rounds prog c body m k s sk _ hk (.inl ⟨s', ?_, rfl⟩) n' (by omega)
+  exact (whileRound_false_iff _ _ _ _).mpr
+    (.inr ⟨s1, (truthyOf_ok_iff _ _ _ _).mpr ⟨cell, hc, ht⟩, hb⟩)
+
+/-- **propagation from iteration k+1**: `return`, `next`, `exit`, a runtime error in the body
+    end the loop with exactly that outcome and state -/
+theorem while_propagates_at (m k : Nat) (c : Expr) (body : Stmt) (s sk s1 s' : St) (cell : CellId)
+    (e : Err) (hk : Rounds (whileRoundAt prog m c body) k s sk)
+    (hc : evalExpr prog m c sk = .ok cell s1) (ht : (s1.heap.get cell).truthy = true)
+    (hb : evalStmt prog m body s1 = .err e s') (he : e ≠ .sig .brk ∧ e ≠ .sig .cont)
+    (n : Nat) (hn : m + k + 1 < n) : evalStmt prog n (.while_ c body) s = .err e s' := by
+  obtain ⟨n', rfl⟩ : ∃ n', n = n' + 1 := ⟨n - 1, by omega⟩
+  rw [while_spec]
+  refine whileLoop_of_rounds prog c body m k s sk _ hk (.inr ⟨e, s', ?_, rfl⟩) n' (by omega)
+  exact (whileRound_err_iff _ _ _ _ _).mpr
+    (.inr ⟨s1, (truthyOf_ok_iff _ _ _ _).mpr ⟨cell, hc, ht⟩, hb, he.1, he.2⟩)
+
+/-! ## 1b. `for (init; c; post) body` = init, then repeat "test; body; post" -/
+
+/-- **for, soundness**: the initialiser once, then the rounds `forRound`: test, body, and — after
+    a completed or continued body only — the post-expression. -/
+theorem for_sound (n : Nat) (pre c post : Expr) (body : Stmt) (s : St) (r : Res Unit)
+    (h : evalStmt prog n (.for_ pre c post body) s = r) (hr : r ≠ .oof) :
+    ForRuns (effectOnly (evalExpr prog n pre)) (forRoundAt prog n c post body) s r := by
+  cases n with
+  | zero => unfold evalStmt at h; exact absurd h.symm hr
+  | succ n =>
+    rw [for_spec] at h
+    simp only [bind, EM.bind] at h
+    have hle := (allMono prog n).expr pre
+    unfold ForRuns effectOnly
+    simp only [bind, EM.bind, pure, EM.pure]
+    cases hp : evalExpr prog n pre s with
+    | ok x s1 =>
+      rw [hp] at h
+      rw [hle.eq_of_ne_oof (by rw [hp]; simp), hp]
+      exact .inl ⟨s1, rfl, (forLoop_sound prog c post body n s1 r h hr).mono (forRoundAt_mono prog c post body n)⟩
+    | err e s1 =>
+      rw [hp] at h
+      rw [hle.eq_of_ne_oof (by rw [hp]; simp), hp]
+      exact .inr ⟨e, s1, rfl, h.symm⟩
+    | oof => rw [hp] at h; exact absurd h.symm hr
+
+/-- **for, completeness** -/
+theorem for_complete (m : Nat) (pre c post : Expr) (body : Stmt) (s : St) (r : Res Unit)
+    (h : ForRuns (effectOnly (evalExpr prog m pre)) (forRoundAt prog m c post body) s r) :
+    Runs prog (.for_ pre c post body) s r := by
+  unfold ForRuns effectOnly at h
+  simp only [bind, EM.bind, pure, EM.pure] at h
+  rcases h with ⟨s1, h1, h2⟩ | ⟨e, s1, h1, rfl⟩
+  · obtain ⟨n, hn⟩ := forLoop_complete prog c post body m s1 r h2
+    cases hp : evalExpr prog m pre s with
+    | ok x s1' =>
+      rw [hp] at h1
+      simp only [Res.ok.injEq, true_and] at h1
+      subst h1
+      refine ⟨max m n + 1, ?_, h2.ne_oof⟩
+      rw [for_spec]
+      simp only [bind, EM.bind]
+      rw [(evalExpr_le prog pre (Nat.le_max_left m n)).eq_of_ne_oof (by rw [hp]; simp), hp]
+      have := (emle_le (fun k => forLoop prog k c post body) (fun k => (allMono prog k).forL c post body)
+        (Nat.le_max_right m n))
+      show forLoop prog (max m n) c post body s1' = r
+      rw [this.eq_of_ne_oof (by rw [hn]; exact h2.ne_oof), hn]
+    | err e s1' => rw [hp] at h1; cases h1
+    | oof => rw [hp] at h1; cases h1
+  · cases hp : evalExpr prog m pre s with
+    | ok x s1' => rw [hp] at h1; cases h1
+    | err e' s1' =>
+      rw [hp] at h1
+      simp only [Res.err.injEq] at h1
+      obtain ⟨rfl, rfl⟩ := h1
+      refine ⟨m + 1, ?_, by simp⟩
+      rw [for_spec]
+      simp only [bind, EM.bind, hp]
+    | oof => rw [hp] at h1; cases h1
+
+/-- **the post-expression runs after each completed or continued iteration**: a `for` round goes
+    on iff the test is truthy, the body completes OR ends with `continue`, and then the
+    post-expression is evaluated (from the state the body left) and completes. -/
+theorem for_round_goes_on (m : Nat) (c post : Expr) (body : Stmt) (s s3 : St) :
+    forRoundAt prog m c post body s = .ok true s3 ↔
+      ∃ cell s1 s2 y, evalExpr prog m c s = .ok cell s1 ∧ (s1.heap.get cell).truthy = true ∧
+        (evalStmt prog m body s1 = .ok () s2 ∨ evalStmt prog m body s1 = .err (.sig .cont) s2) ∧
+        evalExpr prog m post s2 = .ok y s3 := by
+  unfold forRoundAt
+  rw [forRound_true_iff]
+  simp only [truthyOf_ok_iff]
+  have hd : ∀ s2, effectOnly (evalExpr prog m post) s2 = .ok () s3 ↔ ∃ y, evalExpr prog m post s2 = .ok y s3 := by
+    intro s2
+    simp only [effectOnly, bind, EM.bind, pure, EM.pure]
+    cases evalExpr prog m post s2 <;> simp
+  constructor
+  · rintro ⟨s1, s2, ⟨cell, h1, h2⟩, h3, h4⟩
+    obtain ⟨y, hy⟩ := (hd s2).mp h4
+    exact ⟨cell, s1, s2, y, h1, h2, h3, hy⟩
+  · rintro ⟨cell, s1, s2, y, h1, h2, h3, h4⟩
+    exact ⟨s1, s2, ⟨cell, h1, h2⟩, h3, (hd s2).mpr ⟨y, h4⟩⟩
+
+/-- **`break` skips the post-expression**: the round (hence the loop) ends in the very state
+    `break` was raised in -/
+theorem for_break_skips_post (m : Nat) (c post : Expr) (body : Stmt) (s s1 s2 : St) (cell : CellId)
+    (hc : evalExpr prog m c s = .ok cell s1) (ht : (s1.heap.get cell).truthy = true)
+    (hb : evalStmt prog m body s1 = .err (.sig .brk) s2) :
+    forRoundAt prog m c post body s = .ok false s2 :=
+  (forRound_false_iff _ _ _ _ _).mpr (.inr ⟨s1, (truthyOf_ok_iff _ _ _ _).mpr ⟨cell, hc, ht⟩, hb⟩)
+
+/-- **k iterations of `for`**: `init; (c; body; post)^k; c` -/
+theorem for_k_iterations (m k : Nat) (pre c post : Expr) (body : Stmt) (s s1 sk s' : St)
+    (x cell : CellId) (hpre : evalExpr prog m pre s = .ok x s1)
+    (hk : Rounds (forRoundAt prog m c post body) k s1 sk)
+    (hc : evalExpr prog m c sk = .ok cell s') (hf : (s'.heap.get cell).truthy = false) :
+    Runs prog (.for_ pre c post body) s (.ok () s') := by
+  refine for_complete prog m pre c post body s _ (.inl ⟨s1, ?_, ?_⟩)
+  · simp only [effectOnly, bind, EM.bind, hpre, pure, EM.pure]
+  · refine (repeats_iff_rounds _ _ _).mpr ⟨k, sk, hk, .inl ⟨s', ?_, rfl⟩⟩
+    exact (forRound_false_iff _ _ _ _ _).mpr (.inl ((truthyOf_ok_iff _ _ _ _).mpr ⟨cell, hc, hf⟩))
+
+/-! ## 1c. for-in = a fold with early exit over the items held at loop entry -/
+
+/-- **for-in, soundness** (`forIn_array_eq_fold` and its object / string siblings in one):
+    wherever `for (id[, idx] in iter) body` does not run out of fuel it ends exactly like the
+    specification `Spec.forInStmt`: loop variables looked up (created if new), `iter` evaluated
+    ONCE, then `Spec.iterate` over
+    * the cells the ARRAY held at that moment, with their positions (`List.zipIdx`),
+    * the members the OBJECT had at that moment, in ascending key order (`sortByKey`),
+    * the code points of the STRING with their byte offsets (`utf8Runes`),
+    running for each item "bind the variables; body", stopping at the first body that ends
+    with `break` (normal end) or with anything but completion / `continue` (propagates). -/
+theorem forIn_eq_fold (n : Nat) (id : Token) (idx : Option Token) (iter : Expr) (body : Stmt)
+    (s : St) (r : Res Unit) (h : evalStmt prog (n + 1) (.forIn id idx iter body) s = r) (hr : r ≠ .oof) :
+    forInStmt (evalExpr prog n) (evalStmt prog n) id idx iter body s = r := by
+  rw [(forIn_sound prog n id idx iter body).eq_of_ne_oof (by rw [h]; exact hr), h]
+
+/-- **for-in, completeness** -/
+theorem forIn_fold_complete (m : Nat) (id : Token) (idx : Option Token) (iter : Expr) (body : Stmt)
+    (s : St) (r : Res Unit)
+    (h : forInStmt (evalExpr prog m) (evalStmt prog m) id idx iter body s = r) (hr : r ≠ .oof) :
+    Runs prog (.forIn id idx iter body) s r := by
+  obtain ⟨n0, hn⟩ := forIn_complete prog m id idx iter body s r h hr
+  exact ⟨n0, hn n0 (Nat.le_refl _), hr⟩
+
+/-- the array case at the level of the model's `forInLoop`, for the item list the statement
+    builds from the cells of the array -/
+theorem forIn_array_eq_fold (n : Nat) (loc : CellId) (il : Option CellId) (body : Stmt)
+    (cells : List CellId) (s : St) (r : Res Unit)
+    (h : forInLoop prog n loc il body (arrayItems cells) s = r) (hr : r ≠ .oof) :
+    forInArray (evalStmt prog n body) loc il cells s = r := by
+  rw [forInLoop_eq_iterateN] at h
+  have := iterateN_sound (fun k it => do bindRaw loc il it; evalStmt prog k body)
+    (fun k x => EMLe.bind (EMLe.refl (bindRaw loc il x)) (fun _ => (allMono prog k).stmt body)) n (arrayItems cells)
+  rw [← iterate_arrayItems, this.eq_of_ne_oof (by rw [h]; exact hr), h]
+
+/-- the object case: the members in `sortByKey` order -/
+theorem forIn_object_eq_fold (n : Nat) (loc : CellId) (il : Option CellId) (body : Stmt)
+    (members : List (Bytes × CellId)) (s : St) (r : Res Unit)
+    (h : forInLoop prog n loc il body (objectItems members) s = r) (hr : r ≠ .oof) :
+    forInObject (evalStmt prog n body) loc il members s = r := by
+  rw [forInLoop_eq_iterateN] at h
+  have := iterateN_sound (fun k it => do bindRaw loc il it; evalStmt prog k body)
+    (fun k x => EMLe.bind (EMLe.refl (bindRaw loc il x)) (fun _ => (allMono prog k).stmt body)) n (objectItems members)
+  rw [← iterate_objectItems, this.eq_of_ne_oof (by rw [h]; exact hr), h]
+
+/-- the string case: the code points with their byte offsets -/
+theorem forIn_string_eq_fold (n : Nat) (loc : CellId) (il : Option CellId) (body : Stmt)
+    (str : Bytes) (s : St) (r : Res Unit)
+    (h : forInLoop prog n loc il body (stringItems str) s = r) (hr : r ≠ .oof) :
+    forInString (evalStmt prog n body) loc il str s = r := by
+  rw [forInLoop_eq_iterateN] at h
+  have := iterateN_sound (fun k it => do bindRaw loc il it; evalStmt prog k body)
+    (fun k x => EMLe.bind (EMLe.refl (bindRaw loc il x)) (fun _ => (allMono prog k).stmt body)) n (stringItems str)
+  rw [← iterate_stringItems, this.eq_of_ne_oof (by rw [h]; exact hr), h]
+
+/-- **in order, each item at most once**: the items whose step is started form a prefix of the
+    item list (for any step function, in particular "bind; body") -/
+theorem forIn_visits_prefix {ι : Type} (step : ι → EM Unit) (items : List ι) (s : St) :
+    visited step items s <+: items := visited_prefix step items s
+
+/-- **every item exactly once unless the loop is left early**: a fold that ends normally has
+    visited the whole list, or its last visited item's body ended with `break` -/
+theorem forIn_visits_all_or_break {ι : Type} (step : ι → EM Unit) (items : List ι) (s s' : St)
+    (h : iterate step items s = .ok () s') :
+    visited step items s = items ∨
+    ∃ pre x post s1, items = pre ++ x :: post ∧ visited step items s = pre ++ [x] ∧
+      step x s1 = .err (.sig .brk) s' := visited_all_or_break step items s s' h
+
+/-- **object keys in a deterministic order**: the members are visited in ascending bytewise key
+    order, every member of the object exactly once (a permutation of the member list) -/
+theorem forIn_object_order (members : List (Bytes × CellId)) :
+    (sortByKey members).Perm members ∧
+    (sortByKey members).Pairwise (fun x y => Bytes.le x.1 y.1 = true) :=
+  ⟨sortByKey_perm members, sortByKey_sorted members⟩
+
+/-- … strictly ascending (so no key twice) when the keys are distinct, as in a Go map -/
+theorem forIn_object_order_strict (members : List (Bytes × CellId)) (hd : DistinctKeys members) :
+    (sortByKey members).Pairwise (fun x y => Bytes.cmp x.1 y.1 = .lt) :=
+  sortByKey_sortedLt members hd
+
+/-- strings, the plain case: on an ASCII string the items are exactly the bytes with their
+    positions, and the loop variable receives the one-byte string of that byte.  (In general:
+    the code points with their BYTE offsets; an invalid byte is visited as U+FFFD of width 1 —
+    `utf8Runes`, `utf8Encode` follow Go's `range` over a string and `string(rune)`.) -/
+theorem forIn_string_ascii (str : Bytes) (h : ∀ b ∈ str, b < 0x80) :
+    utf8Runes str = str.zipIdx.map (fun p => (p.2, p.1.toNat)) ∧
+    ∀ b ∈ str, utf8Encode b.toNat = [b] :=
+  ⟨utf8Runes_ascii str h, fun b hb => utf8Encode_ascii b (h b hb)⟩
+
+/-- array items carry their positions `0, 1, 2, …` in order -/
+theorem forIn_array_positions (cells : List CellId) :
+    cells.zipIdx.map Prod.snd = List.range cells.length ∧ cells.zipIdx.map Prod.fst = cells := by
+  constructor
+  · simp [List.zipIdx_map_snd, List.range_eq_range']
+  · simp
+
+/-! ## 2. `break` / `continue` affect only the innermost enclosing loop -/
+
+/-- **every loop statement confines `break` and `continue`** (all three kinds): whatever the
+    body does at whatever depth, the loop statement itself never ends with them — provided its
+    HEADER expressions contain no `break` / `continue` (possible only inside the body of a
+    `match` expression in the header; see `header_break_hits_outer_loop` below) -/
+theorem loop_statements_confine (hfs : prog.FnScoped) (g : Sig) (hg : g = .brk ∨ g = .cont) (n : Nat)
+    (s s' : St) :
+    (∀ c b, canE g c = false → evalStmt prog n (.while_ c b) s ≠ .err (.sig g) s') ∧
+    (∀ pre c post b, canE g pre = false → canE g c = false → canE g post = false →
+      evalStmt prog n (.for_ pre c post b) s ≠ .err (.sig g) s') ∧
+    (∀ id idx iter b, canE g iter = false → evalStmt prog n (.forIn id idx iter b) s ≠ .err (.sig g) s') := by
+  have hc : g.confined = true := by rcases hg with rfl | rfl <;> rfl
+  have hl : g.loopSig = true := by rcases hg with rfl | rfl <;> rfl
+  refine ⟨fun c b h => ?_, fun pre c post b h1 h2 h3 => ?_, fun id idx iter b h => ?_⟩
+  · exact C01.confined_signals_stmt prog hfs g hc n _ (by simp [canS, h, hl]) s s'
+  · exact C01.confined_signals_stmt prog hfs g hc n _ (by simp [canS, h1, h2, h3, hl]) s s'
+  · exact C01.confined_signals_stmt prog hfs g hc n _ (by simp [canS, h, hl]) s s'
+
+/-- **no `break` outside nested loops, no `break` out**: a statement in which every `break`
+    (`continue`) sits inside a nested loop's body — `canS` is this syntactic check, through
+    blocks, if/else, match bodies, and stopping at loop bodies — never ends with it -/
+theorem no_free_break_no_break (hfs : prog.FnScoped) (g : Sig) (hg : g = .brk ∨ g = .cont) (n : Nat)
+    (st : Stmt) (h : canS g st = false) (s s' : St) : evalStmt prog n st s ≠ .err (.sig g) s' :=
+  C01.confined_signals_stmt prog hfs g (by rcases hg with rfl | rfl <;> rfl) n st h s s'
+
+/-- **`break` at any depth of blocks / if-else / match-statement bodies ends exactly the loop
+    whose body it is in**: if the body `Leads` (without crossing a loop boundary) to a `break`,
+    the iteration — `loopIter`, the common step of all three loop kinds — ends the loop
+    normally, in the state `break` was executed in (up to the frames of match bodies, which are
+    dropped), whatever the continuation `k` (next test, post-expression, remaining items) is:
+    none of it runs. -/
+theorem break_ends_innermost_loop {n m : Nat} {body : Stmt} {s s0 : St} {t : Token}
+    (hl : Leads prog false n (.stmt body) s (m + 1) (.brk t) s0) (k : EM Unit) :
+    ∃ fr, loopIter (evalStmt prog n body) k s = .ok () { s0 with frames := fr } := by
+  obtain ⟨fr, h⟩ := leads_propagates prog hl (.sig .brk) s0 (by unfold evalStmt; rfl) (fun h => by cases h)
+  exact ⟨fr, loopIter_break _ _ _ _ h⟩
+
+/-- **`continue` at any such depth goes on with exactly this loop**: the rest of the body is
+    skipped and the loop's continuation `k` runs — for `for`, `k` starts with the
+    post-expression (`forLoop_unfold`) -/
+theorem continue_resumes_innermost_loop {n m : Nat} {body : Stmt} {s s0 : St} {t : Token}
+    (hl : Leads prog false n (.stmt body) s (m + 1) (.cont t) s0) (k : EM Unit) :
+    ∃ fr, loopIter (evalStmt prog n body) k s = k { s0 with frames := fr } := by
+  obtain ⟨fr, h⟩ := leads_propagates prog hl (.sig .cont) s0 (by unfold evalStmt; rfl) (fun h => by cases h)
+  exact ⟨fr, loopIter_continue _ _ _ _ h⟩
+
+/-- **`continue` in a `for` at any such depth still runs the post-expression**: the iteration
+    goes on with "post; next test" from the state `continue` was executed in -/
+theorem for_continue_runs_post {n m : Nat} {c post : Expr} {body : Stmt} {s s1 s0 : St} {cell : CellId}
+    {t : Token} (hc : evalExpr prog n c s = .ok cell s1) (ht : (s1.heap.get cell).truthy = true)
+    (hl : Leads prog false n (.stmt body) s1 (m + 1) (.cont t) s0) :
+    ∃ fr, forLoop prog (n + 1) c post body s =
+      (do let _ ← evalExpr prog n post; forLoop prog n c post body) { s0 with frames := fr } := by
+  obtain ⟨fr, h⟩ := continue_resumes_innermost_loop prog hl
+    (do let _ ← evalExpr prog n post; forLoop prog n c post body)
+  refine ⟨fr, ?_⟩
+  rw [forLoop_unfold]
+  simp only [bind, EM.bind, hc, readCell, ht, ↓reduceIte]
+  exact h
+
+/-- the same for a whole `while` statement: `break` reached in its body in the first iteration
+    ends this statement normally -/
+theorem while_break_innermost {n m : Nat} {c : Expr} {body : Stmt} {s s1 s0 : St} {cell : CellId}
+    {t : Token} (hc : evalExpr prog n c s = .ok cell s1) (ht : (s1.heap.get cell).truthy = true)
+    (hl : Leads prog false n (.stmt body) s1 (m + 1) (.brk t) s0) :
+    ∃ fr, evalStmt prog (n + 2) (.while_ c body) s = .ok () { s0 with frames := fr } := by
+  obtain ⟨fr, h⟩ := break_ends_innermost_loop prog hl (whileLoop prog n c body)
+  refine ⟨fr, ?_⟩
+  have h1 : whileLoop prog (n + 1) c body s = .ok () { s0 with frames := fr } := by
+    rw [whileLoop_unfold]
+    simp only [bind, EM.bind, hc, readCell, ht, ↓reduceIte]
+    exact h
+  rw [while_spec]; exact h1
+
+/-- **every nesting, every abnormal end**: if a statement `Leads` to a sub-statement — through
+    completed statements of blocks, taken branches, matching `match` cases, earlier completed or
+    continued loop iterations — and that sub-statement ends with a runtime error, `return`,
+    `next`, `exit` (or, with no loop boundary in between, `break` / `continue`), then the
+    statement ends the same way in the same state (up to dropped match frames): NOTHING that
+    follows the sub-statement in any enclosing construct is executed. -/
+theorem abnormal_end_propagates {l : Bool} {n m : Nat} {outer inner : Stmt} {s s0 s1 : St} {e : Err}
+    (hl : Leads prog l n (.stmt outer) s m inner s0) (he : evalStmt prog m inner s0 = .err e s1)
+    (hp : l = true → e ≠ .sig .brk ∧ e ≠ .sig .cont) :
+    ∃ fr, evalStmt prog n outer s = .err e { s1 with frames := fr } :=
+  leads_propagates prog hl e s1 he hp
+
+/-- **`next` and `exit` leave every loop and conditional**: reached at any nesting depth they
+    end the whole statement (up to the rule driver, which consumes them) -/
+theorem next_exit_from_any_nesting {l : Bool} {n m : Nat} {outer : Stmt} {s s0 : St} {t : Token}
+    (g : Sig) (inner : Stmt) (hg : (g = .next ∧ inner = .next t) ∨ (g = .exit ∧ inner = .exit t))
+    (hl : Leads prog l n (.stmt outer) s (m + 1) inner s0) :
+    ∃ fr, evalStmt prog n outer s = .err (.sig g) { s0 with frames := fr } := by
+  rcases hg with ⟨rfl, rfl⟩ | ⟨rfl, rfl⟩
+  · exact leads_propagates prog hl (.sig .next) s0 (by unfold evalStmt; rfl) (fun _ => ⟨by simp, by simp⟩)
+  · exact leads_propagates prog hl (.sig .exit) s0 (by unfold evalStmt; rfl) (fun _ => ⟨by simp, by simp⟩)
+
+/-! ## 4. `return` leaves exactly the current function, from any nesting -/
+
+/-- **`return e` from inside any loops, conditionals, blocks and match-statement bodies**: if
+    the body of the called function `Leads` to `return e` and `e` evaluates (there) to the cell
+    `c`, the call ends right then: its value is the value of `c`, the state is the one after
+    evaluating `e` (plus the return slot and the result cell) — nothing else of the body, of
+    enclosing loops (no further test, post-expression, item) runs — and the frame stack is the
+    caller's again. -/
+theorem return_from_any_nesting (n m pos i : Nat) (fc : CellId) (args : List CellId) (f : FuncDef)
+    (s sb s0 s2 : St) (l : Bool) (e : Expr) (c : CellId)
+    (hfn : s.heap.get fc = .fn i) (hf : prog.functions[i]? = some f)
+    (hdepth : ¬ s.frames.length > callDepthLimit)
+    (hbind : bindParams f.args (args.map s.heap.get)
+      { s with frames := ⟨f.ident.text, []⟩ :: s.frames,
+               maxDepth := max s.maxDepth (s.frames.length + 1) } = .ok () sb)
+    (hl : Leads prog l n (.stmt f.body) sb (m + 1) (.ret (some e)) s0)
+    (he : evalExpr prog m e s0 = .ok c s2) :
+    callFunction prog (n + 1) pos fc args s =
+      .ok s2.heap.cells.size
+        { s2 with returnVal := some c, frames := s.frames, heap := (s2.heap.alloc (s2.heap.get c)).2 } := by
+  have hret : evalStmt prog (m + 1) (.ret (some e)) s0 = .err (.sig .ret) { s2 with returnVal := some c } := by
+    unfold evalStmt
+    simp only [bind, EM.bind, he, modifySt, throwSig]
+  obtain ⟨fr, hb⟩ := leads_propagates prog hl (.sig .ret) _ hret (fun _ => ⟨by simp, by simp⟩)
+  simp only [Task.run] at hb
+  unfold callFunction
+  simp only [bind, EM.bind, readCell, getHeap, hfn, hf, getSt, pushFrame, hdepth, ↓reduceIte, withFrames,
+    hbind, catchReturn, hb, newCell, Heap.alloc]
+
+/-- … and only the current function: the caller never sees the `return` (nor `break` /
+    `continue`) of the callee -/
+theorem call_confines_return (hfs : prog.FnScoped) (n pos : Nat) (f : CellId) (args : List CellId)
+    (s s' : St) : callFunction prog n pos f args s ≠ .err (.sig .ret) s' :=
+  C01.call_absorbs prog hfs .ret rfl n pos f args s s'
+
+end whole
+
+/-! ## 3. dangling else: `else` binds to the nearest unmatched `if` (parser, on token lists) -/
+
+section danglingElse
+open Jqawk.Grammar Jqawk.Parser Jqawk.Pratt Jqawk.LoopsElse
+
+/-- **Dangling else, any inner statements**: in `if (a) if (b) S1 else S2` — `a`, `b` ANY
+    well-formed expressions of the printer grammar `PE` in any rendering (minimal, full or
+    redundant parentheses), `S1`, `S2` any statements that parse on their own (`ParsesStmt`) —
+    the `else` is attached to the INNER `if`: the result is `if a (if b S1 else S2)` with no else
+    branch on the outer `if`, for every fuel from the stated bound on. -/
+theorem dangling_else_any (fn lp : Bool) (a b : PE) (hwa : a.wf = true) (hwb : b.wf = true)
+    (pol : PE → Bool) (qa qb : Nat) (hqa : 1 ≤ qa) (hqb : 1 ≤ qb)
+    (i1 l1 r1 i2 l2 r2 el : Token)
+    (hi1 : i1.tag = .if_) (hl1 : l1.tag = .lparen) (hr1 : r1.tag = .rparen)
+    (hi2 : i2.tag = .if_) (hl2 : l2.tag = .lparen) (hr2 : r2.tag = .rparen) (hel : el.tag = .else_)
+    (k1 : Nat) (h1 : Token) (rest1 : List Token) (S1 : Stmt) (h2 : Token) (rest2 : List Token)
+    (k2 : Nat) (S2 : Stmt) (c : Token) (more : List Token)
+    (hS1 : ParsesStmt fn lp k1 h1 rest1 S1 el (h2 :: rest2))
+    (hS2 : ParsesStmt fn lp k2 h2 rest2 S2 c more) (hc : c.tag ≠ .else_) :
+    ParsesStmt fn lp (max (max (cost a + 4) (cost b + 5)) (max k1 k2 + 2)) i1
+      (l1 :: (render pol qa a ++ r1 :: i2 :: l2 :: (render pol qb b ++ r2 :: h1 :: rest1)))
+      (.if_ (toExpr a) (.if_ (toExpr b) S1 (some S2)) none) c more :=
+  dangling_else_general fn lp a b hwa hwb pol qa qb hqa hqb i1 l1 r1 i2 l2 r2 el hi1 hl1 hr1 hi2 hl2 hr2
+    hel k1 h1 rest1 S1 h2 rest2 k2 S2 c more hS1 hS2 hc
+
+/-- **Dangling else, expression statements**: the instance with `S1`, `S2` expression statements
+    of arbitrary `PE` expressions (not starting with `{`, which would open a block), followed by
+    any token that ends an expression and is not `else` (`;`, `}`, end of input, …). -/
+theorem dangling_else_exprs (a b e1 e2 : PE) (hwa : a.wf = true) (hwb : b.wf = true)
+    (hw1 : e1.wf = true) (hw2 : e2.wf = true) (pol : PE → Bool)
+    (qa qb q1 q2 : Nat) (hqa : 1 ≤ qa) (hqb : 1 ≤ qb) (hq1 : 1 ≤ q1) (hq2 : 1 ≤ q2)
+    (i1 l1 r1 i2 l2 r2 el c : Token)
+    (hi1 : i1.tag = .if_) (hl1 : l1.tag = .lparen) (hr1 : r1.tag = .rparen)
+    (hi2 : i2.tag = .if_) (hl2 : l2.tag = .lparen) (hr2 : r2.tag = .rparen) (hel : el.tag = .else_)
+    (hx1 : startsExpr (render pol q1 e1) = true) (hx2 : startsExpr (render pol q2 e2) = true)
+    (hstop : precT c.tag < 1) (hc : c.tag ≠ .else_) (more : List Token)
+    (s : PS) (hs : s.cur = i1) (F : Nat)
+    (hF : max (max (cost a + 4) (cost b + 5)) (max (cost e1) (cost e2) + 6) ≤ F) :
+    ∃ s', s'.cur = c ∧ s'.inFn = s.inFn ∧ s'.inLoop = s.inLoop ∧
+      run (statement T F) s
+        (l1 :: (render pol qa a ++ r1 :: i2 :: l2 :: (render pol qb b ++ r2 ::
+          (render pol q1 e1 ++ el :: (render pol q2 e2 ++ c :: more)))))
+      = .ok ((.if_ (toExpr a) (.if_ (toExpr b) (.expr (toExpr e1)) (some (.expr (toExpr e2)))) none, s'),
+          more) :=
+  dangling_else a b e1 e2 hwa hwb hw1 hw2 pol qa qb q1 q2 hqa hqb hq1 hq2 i1 l1 r1 i2 l2 r2 el c
+    hi1 hl1 hr1 hi2 hl2 hr2 hel hx1 hx2 hstop hc more s hs F hF
+
+/-- the contrast: to attach the `else` to the OUTER `if` the inner one must be put in braces -/
+theorem else_to_outer_needs_braces (fn lp : Bool) (a b : PE) (hwa : a.wf = true)
+    (hwb : b.wf = true) (pol : PE → Bool) (qa qb : Nat) (hqa : 1 ≤ qa) (hqb : 1 ≤ qb)
+    (i1 l1 r1 lc i2 l2 r2 rc el : Token)
+    (hi1 : i1.tag = .if_) (hl1 : l1.tag = .lparen) (hr1 : r1.tag = .rparen) (hlc : lc.tag = .lcurly)
+    (hi2 : i2.tag = .if_) (hl2 : l2.tag = .lparen) (hr2 : r2.tag = .rparen) (hrc : rc.tag = .rcurly)
+    (hel : el.tag = .else_)
+    (k1 : Nat) (h1 : Token) (rest1 : List Token) (S1 : Stmt) (h2 : Token) (rest2 : List Token)
+    (k2 : Nat) (S2 : Stmt) (c : Token) (more : List Token)
+    (hS1 : ParsesStmt fn lp k1 h1 rest1 S1 rc (el :: h2 :: rest2))
+    (hS2 : ParsesStmt fn lp k2 h2 rest2 S2 c more) :
+    ParsesStmt fn lp (max (max (cost a + 4) (cost b + 8)) (max (k1 + 5) (k2 + 1))) i1
+      (l1 :: (render pol qa a ++ r1 :: lc :: i2 :: l2 :: (render pol qb b ++ r2 :: h1 :: rest1)))
+      (.if_ (toExpr a) (.block lc [.if_ (toExpr b) S1 none]) (some S2)) c more :=
+  else_outer_needs_braces fn lp a b hwa hwb pol qa qb hqa hqb i1 l1 r1 lc i2 l2 r2 rc el
+    hi1 hl1 hr1 hlc hi2 hl2 hr2 hrc hel k1 h1 rest1 S1 h2 rest2 k2 S2 c more hS1 hS2
+
+/-- non-vacuity, from SOURCE TEXT through the real lexer: the nested reading (what the Go binary
+    prints with `-dbg-ast` too), and it differs from the reading with braces -/
+example :
+    dumpProgSrc b!"{ if (a) if (b) x = 1 else x = 2 }"
+      = some (dumpProgram ⟨[⟨.pattern, none, .block ⟨.lcurly, 0, []⟩
+          [.if_ (.ident ⟨.ident, 6, b!"a"⟩)
+            (.if_ (.ident ⟨.ident, 13, b!"b"⟩) (asgAt 16 18 20 b!"1") (some (asgAt 27 29 31 b!"2")))
+            none]⟩], []⟩) := by
+  decide +kernel
+
+example : dumpProgSrc b!"{ if (a) if (b) x = 1 else x = 2 }"
+    ≠ dumpProgSrc b!"{ if (a) { if (b) x = 1 } else x = 2 }" := by
+  decide +kernel
+
+/-- an instance of `dangling_else_exprs` with every hypothesis discharged by computation:
+    `if ( a ) if ( b ) x = 1 else x = 2` in front of a `}` (compound conditions, see below) -/
+example : ∃ s', s'.cur = opTok .rcurly ∧ s'.inFn = false ∧ s'.inLoop = false ∧
+    run (statement T 40) ⟨opTok .if_, opTok .lcurly, false, false, false⟩
+      (opTok .lparen :: (renderMin 1 (.bin .add (.ident b!"a") (.ident b!"c")) ++ opTok .rparen :: opTok .if_ ::
+        opTok .lparen :: (renderMin 1 (.ident b!"b") ++ opTok .rparen ::
+          (renderMin 1 (asgPE b!"1") ++ opTok .else_ :: (renderMin 1 (asgPE b!"2") ++
+            opTok .rcurly :: [])))))
+    = .ok ((.if_ (toExpr (.bin .add (.ident b!"a") (.ident b!"c")))
+              (.if_ (toExpr (.ident b!"b")) (.expr (toExpr (asgPE b!"1")))
+                (some (.expr (toExpr (asgPE b!"2"))))) none, s'), []) :=
+  dangling_else_exprs (.bin .add (.ident b!"a") (.ident b!"c")) (.ident b!"b") (asgPE b!"1") (asgPE b!"2")
+    (by decide +kernel) (by decide +kernel) (by decide +kernel) (by decide +kernel)
+    (fun _ => false) 1 1 1 1 (by decide) (by decide) (by decide) (by decide)
+    (opTok .if_) (opTok .lparen) (opTok .rparen) (opTok .if_) (opTok .lparen) (opTok .rparen)
+    (opTok .else_) (opTok .rcurly) rfl rfl rfl rfl rfl rfl rfl
+    (by decide +kernel) (by decide +kernel) (by decide) (by decide) []
+    ⟨opTok .if_, opTok .lcurly, false, false, false⟩ rfl 40 (by decide +kernel)
+
+end danglingElse
+
+
+/-! ## Non-vacuity and findings: concrete programs -/
+
+section examples
+open Jqawk.Spec
+
+/-- the output of a whole program run by the model driver (no input files); `none` unless it
+    ends normally -/
+def runOut (src : Bytes) : Option Bytes :=
+  let r := evalProgram expectedRuleTable src [] []
+  match r.outcome with
+  | .ok => some r.out
+  | _ => none
+
+/-- the program a source text parses to, the body of its first rule, the initial state -/
+def demoProg (src : Bytes) : Program :=
+  match parseProgramSrc expectedRuleTable src with
+  | .ok p => p
+  | _ => Program.empty
+def demoBody (src : Bytes) : Stmt :=
+  match (demoProg src).rules with
+  | r :: _ => r.body
+  | [] => .block Token.zero []
+def demoStart (src : Bytes) : St := newEvaluator (demoProg src) Heap.empty [] 0
+
+/-- the first statement of a block -/
+def firstStmt : Stmt → Stmt
+  | .block _ (st :: _) => st
+  | st => st
+
+def outOf (r : Res Unit) : Option Bytes :=
+  match r with
+  | .ok () s => some s.output
+  | _ => none
+
+def isDone {α : Type} : Res α → Bool
+  | .oof => false
+  | _ => true
+
+/-- (helper for the examples) a computed check that a result is not "out of fuel" -/
+theorem ne_oof_of_isDone {α : Type} {r : Res α} (h : isDone r = true) : r ≠ .oof := by
+  intro h'; rw [h'] at h; cases h
+
+/-! ### the clauses on one program: order, `continue` runs the post-expression, `break` does
+    not, break / continue act on the innermost loop only -/
+
+/-- `for`: `continue` (i = 1) still increments `i` — otherwise the loop would never end —,
+    `break` (i = 4) leaves with `i = 4`: the post-expression did not run after it -/
+example : runOut b!"BEGIN { for (i = 0; i < 6; i++) { if (i == 1) continue; if (i == 4) break; print i } print \"end\", i }"
+    = some b!"0\n2\n3\nend 4\n" := by decide +kernel
+
+/-- nested loops: `break` / `continue` of the inner loop (inside if/else inside a block) leave
+    the outer loop alone; an outer `continue` after the inner loop acts on the outer one -/
+example : runOut b!"BEGIN { for (i = 0; i < 3; i++) { j = 0; while (true) { j++; if (j == 1) { continue } else { if (j > 2) { break } } print i, j } if (i == 1) continue; print \"row\", i } }"
+    = some b!"0 2\nrow 0\n1 2\n2 2\nrow 2\n" := by decide +kernel
+
+/-- `return` from inside two loops and a conditional ends the call (and only the call) -/
+example : runOut b!"function f(a) { for (x in a) { while (true) { if (x > 1) { return x * 10 } break } print \"skip\", x } return 0 } BEGIN { print f([1, 2, 3]); print \"after\" }"
+    = some b!"skip 1\n20\nafter\n" := by decide +kernel
+
+/-- the dangling `else` at run time: with `a` true and `b` false the else branch runs; with `a`
+    false nothing runs (the else belongs to the inner `if`) -/
+example : runOut b!"BEGIN { if (true) if (false) print \"then\" else print \"else\"; if (false) if (true) print \"x\" else print \"y\"; print \"end\" }"
+    = some b!"else\nend\n" := by decide +kernel
+
+/-! ### for-in -/
+
+/-- arrays: element and index, in order; objects: keys in sorted order with values; strings:
+    characters with BYTE offsets (`é` is two bytes) -/
+example : runOut b!"BEGIN { for (x, i in [7, 8, 9]) print i, x; o = {b: 1, a: 2, ab: 3}; for (k, v in o) print k, v; for (ch, off in \"héy\") print off, ch }"
+    = some b!"0 7\n1 8\n2 9\na 2\nab 3\nb 1\n0 h\n1 é\n3 y\n" := by decide +kernel
+
+/-- the items are those held WHEN THE LOOP STARTED: elements pushed by the body are not
+    visited (Go: `range` evaluates the slice once) — but their VALUES are read when their turn
+    comes (element 2 was overwritten in iteration 0) -/
+example : runOut b!"BEGIN { a = [1, 2, 3]; for (x, i in a) { print i, x; if (i == 0) { a.push(9); a[2] = 7 } } print a }"
+    = some b!"0 1\n1 2\n2 7\n[1, 2, 7, 9]\n" := by decide +kernel
+
+/-- FINDING (model ≠ Go): `pop()` followed by `push()` inside the body.  The model iterates the
+    snapshot of the cell LIST and still visits the popped cell (prints `2 3`); Go ranges over the
+    slice's backing array, where `append` after the `pop` overwrote slot 2 in place, and prints
+    `2 9`.  (Everything else in this file is about the model as it is.) -/
+example : runOut b!"BEGIN { a = [1, 2, 3]; for (x, i in a) { print i, x; if (i == 0) { a.pop(); a.push(9) } } print a }"
+    = some b!"0 1\n1 2\n2 3\n[1, 2, 9]\n" := by decide +kernel
+
+/-- an invalid UTF-8 byte is visited as U+FFFD (EF BF BD) of width 1, as Go's `range` does -/
+example : runOut (b!"BEGIN { for (ch, off in \"a" ++ [0xff] ++ b!"b\") print off, ch }")
+    = some (b!"0 a\n1 " ++ [0xef, 0xbf, 0xbd] ++ b!"\n2 b\n") := by decide +kernel
+
+/-- FINDING (`loop_statements_confine` needs its header hypothesis; Go agrees with the model):
+    a `break` in the HEADER of a loop — possible only inside a `match` body there, and only if
+    the loop is itself nested in a loop, otherwise the parser rejects it — is outside the body
+    of that loop: it ends the ENCLOSING loop (here: the `for`, in its first iteration). -/
+example : runOut b!"BEGIN { for (i = 0; i < 3; i++) { j = 0; while (match (j) { 2 => { break } _ => true }) { j++ } print i, j } print \"done\" }"
+    = some b!"done\n" := by decide +kernel
+
+/-- … and at top level it is a syntax error -/
+example : (match parseProgramSrc expectedRuleTable
+      b!"BEGIN { j = 0; while (match (j) { 2 => { break } _ => true }) { j++ } }" with
+    | .syntaxErr _ => true | _ => false) = true := by decide +kernel
+
+/-! ### instances of the hypotheses of the whole-loop theorems -/
+
+def whileSrc : Bytes := b!"BEGIN { i = 0; while (i < 3) { print i; i++ } }"
+def forSrc : Bytes := b!"BEGIN { for (i = 0; i < 5; i++) { if (i == 1) continue; if (i == 3) break; print i } }"
+def forInSrc : Bytes := b!"BEGIN { for (x, i in [5, 6, 7]) { if (i == 2) break; print i, x } }"
+
+/-- the state in which the `while` statement of `whileSrc` starts -/
+def whileStart : St :=
+  match evalStmt (demoProg whileSrc) 20 (firstStmt (demoBody whileSrc)) (demoStart whileSrc) with
+  | .ok () s => s
+  | _ => default
+def whileCond : Expr :=
+  match demoBody whileSrc with
+  | .block _ (_ :: .while_ c _ :: _) => c
+  | _ => .lit Token.zero
+def whileBodyS : Stmt :=
+  match demoBody whileSrc with
+  | .block _ (_ :: .while_ _ b :: _) => b
+  | st => st
+
+/-- `fuel_irrelevant`, `while_sound`: the statement ends normally at fuel 30 (and at 300) -/
+example : outOf (evalStmt (demoProg whileSrc) 30 (.while_ whileCond whileBodyS) whileStart)
+    = some b!"0\n1\n2\n" := by decide +kernel
+example : outOf (evalStmt (demoProg whileSrc) 300 (.while_ whileCond whileBodyS) whileStart)
+    = some b!"0\n1\n2\n" := by decide +kernel
+
+/-- `while_unrolled`, `while_k_iterations`: hence rounds as required by their hypotheses exist
+    for this loop (three of them, then the final test) -/
+example : ∃ r m k sk,
+    Rounds (whileRoundAt (demoProg whileSrc) m whileCond whileBodyS) k whileStart sk ∧
+    FinalRound (whileRoundAt (demoProg whileSrc) m whileCond whileBodyS) sk r :=
+  ⟨_, (while_unrolled (demoProg whileSrc) whileCond whileBodyS whileStart _).mp
+    ⟨30, rfl, ne_oof_of_isDone (by decide +kernel)⟩⟩
+
+/-- `for_sound`: a `for` statement with `continue` and `break` ends normally -/
+example : outOf (evalStmt (demoProg forSrc) 40 (firstStmt (demoBody forSrc)) (demoStart forSrc))
+    = some b!"0\n2\n" := by decide +kernel
+
+/-- `forIn_eq_fold`: the statement ends normally … -/
+example : outOf (evalStmt (demoProg forInSrc) 41 (firstStmt (demoBody forInSrc)) (demoStart forInSrc))
+    = some b!"0 5\n1 6\n" := by decide +kernel
+
+/-- … and (`forIn_fold_complete`) the SPECIFICATION, run directly, gives the same output -/
+example : (match firstStmt (demoBody forInSrc) with
+    | .forIn id idx iter body =>
+      outOf (forInStmt (evalExpr (demoProg forInSrc) 40) (evalStmt (demoProg forInSrc) 40) id idx iter body
+        (demoStart forInSrc))
+    | _ => none) = some b!"0 5\n1 6\n" := by decide +kernel
+
+/-- `forIn_string_ascii` -/
+example : ∀ b ∈ b!"hello, world", b < 0x80 := by decide
+
+/-- `forIn_object_order_strict`: distinct keys -/
+example : DistinctKeys [(b!"b", 1), (b!"a", 0), (b!"ab", 2)] := by
+  simp only [DistinctKeys, List.pairwise_cons]; decide
+
+/-- a parsed program satisfies `FnScoped` (hypothesis of `loop_statements_confine`, …) -/
+example : (demoProg b!"function f(x) { while (x) { if (x > 3) break; x++ } return x } BEGIN { print f(1) }").FnScoped :=
+  (wellScoped_of_B _ (by decide +kernel)).1
+
+/-! ### `Leads`: a `break` under a conditional in a block, a `return` under a loop -/
+
+def tkB : Token := ⟨.break_, 0, []⟩
+def tkT : Token := ⟨.true_, 0, []⟩
+def tk7 : Token := ⟨.num, 0, b!"7"⟩
+def stAfter {α : Type} : Res α → St
+  | .ok _ s => s
+  | .err _ s => s
+  | .oof => default
+
+/-- `{ if (true) { break } }` -/
+def bodyB : Stmt := .block tkB [.if_ (.lit tkT) (.block tkB [.brk tkB]) none]
+/-- the states after the loop test and after the test of the `if` -/
+def sB1 : St := stAfter (evalExpr Program.empty 6 (.lit tkT) default)
+def sB2 : St := stAfter (evalExpr Program.empty 3 (.lit tkT) sB1)
+
+/-- (example) the body leads to its `break`: block, taken `if`, block -/
+theorem leads_bodyB : Leads Program.empty false 6 (.stmt bodyB) sB1 1 (.brk tkB) sB2 :=
+  Leads.block (Leads.blockHead (Leads.ifThen (cell := 1) (s1 := sB2)
+    (by with_unfolding_all rfl) (by with_unfolding_all rfl) (Leads.block (Leads.blockHead Leads.here))))
+
+/-- `while_break_innermost` (hence `break_ends_innermost_loop`) applied: `while (true) { if (true)
+    { break } }` ends normally at its first `break`, in the state reached there -/
+example : ∃ fr, evalStmt Program.empty 8 (.while_ (.lit tkT) bodyB) default
+    = .ok () { sB2 with frames := fr } :=
+  while_break_innermost Program.empty (cell := 0) (s1 := sB1)
+    (by with_unfolding_all rfl) (by with_unfolding_all rfl) leads_bodyB
+
+/-- `abnormal_end_propagates` on the same derivation -/
+example : ∃ fr, evalStmt Program.empty 6 bodyB sB1 = .err (.sig .brk) { sB2 with frames := fr } :=
+  abnormal_end_propagates Program.empty leads_bodyB (by with_unfolding_all rfl) (fun h => by cases h)
+
+/-- `{ if (true) { continue } }` and `{ if (true) { next } }`: the same derivation -/
+def bodyWith (inner : Stmt) : Stmt := .block tkB [.if_ (.lit tkT) (.block tkB [inner]) none]
+
+/-- (example) the same path to an arbitrary innermost statement -/
+theorem leads_bodyWith (inner : Stmt) :
+    Leads Program.empty false 6 (.stmt (bodyWith inner)) sB1 1 inner sB2 :=
+  Leads.block (Leads.blockHead (Leads.ifThen (cell := 1) (s1 := sB2)
+    (by with_unfolding_all rfl) (by with_unfolding_all rfl) (Leads.block (Leads.blockHead Leads.here))))
+
+/-- `continue_resumes_innermost_loop`, `for_continue_runs_post`: in `for (; true; 7) { if (true)
+    { continue } }` the iteration goes on with the post-expression -/
+example : ∃ fr, forLoop Program.empty 7 (.lit tkT) (.lit tk7) (bodyWith (.cont tkB)) default =
+    (do let _ ← evalExpr Program.empty 6 (.lit tk7)
+        forLoop Program.empty 6 (.lit tkT) (.lit tk7) (bodyWith (.cont tkB))) { sB2 with frames := fr } :=
+  for_continue_runs_post Program.empty (cell := 0) (s1 := sB1)
+    (by with_unfolding_all rfl) (by with_unfolding_all rfl) (leads_bodyWith (.cont tkB))
+
+/-- `next_exit_from_any_nesting` -/
+example : ∃ fr, evalStmt Program.empty 6 (bodyWith (.next tkB)) sB1 = .err (.sig .next) { sB2 with frames := fr } :=
+  next_exit_from_any_nesting Program.empty .next (.next tkB) (.inl ⟨rfl, rfl⟩) (leads_bodyWith (.next tkB))
+
+/-- `function f() { while (true) { if (true) { return 7 } } }` -/
+def bodyR : Stmt :=
+  .block tkB [.while_ (.lit tkT) (.block tkB [.if_ (.lit tkT) (.block tkB [.ret (some (.lit tk7))]) none])]
+def fR : FuncDef := ⟨⟨.ident, 0, b!"f"⟩, [], bodyR⟩
+def progR : Program := ⟨[], [fR]⟩
+/-- the caller's state: cell 0 holds the function -/
+def sR : St := { (default : St) with heap := ((default : St).heap.alloc (.fn 0)).2 }
+def sRb : St := { sR with frames := ⟨fR.ident.text, []⟩ :: sR.frames,
+                          maxDepth := max sR.maxDepth (sR.frames.length + 1) }
+def sR1 : St := stAfter (evalExpr progR 7 (.lit tkT) sRb)
+def sR2 : St := stAfter (evalExpr progR 4 (.lit tkT) sR1)
+def sR3 : St := stAfter (evalExpr progR 1 (.lit tk7) sR2)
+
+/-- (example) the function body leads to its `return`: block, first `while` iteration, block,
+    taken `if`, block — one loop boundary crossed -/
+theorem leads_bodyR : Leads progR true 11 (.stmt bodyR) sRb 2 (.ret (some (.lit tk7))) sR2 :=
+  Leads.block (Leads.blockHead (Leads.while_ (Leads.whileBody (cell := 1) (s1 := sR1)
+    (by with_unfolding_all rfl) (by with_unfolding_all rfl)
+    (Leads.block (Leads.blockHead (Leads.ifThen (cell := 2) (s1 := sR2)
+      (by with_unfolding_all rfl) (by with_unfolding_all rfl)
+      (Leads.block (Leads.blockHead Leads.here))))))))
+
+/-- `return_from_any_nesting` applied: the call ends at the `return`, inside `while` and `if` -/
+example : callFunction progR 12 0 0 [] sR =
+    .ok sR3.heap.cells.size
+      { sR3 with returnVal := some 3, frames := sR.frames, heap := (sR3.heap.alloc (sR3.heap.get 3)).2 } :=
+  return_from_any_nesting progR 11 1 0 0 0 [] fR sR sRb sR2 sR3 true (.lit tk7) 3
+    (by with_unfolding_all rfl) (by with_unfolding_all rfl) (by with_unfolding_all decide)
+    (by with_unfolding_all rfl) leads_bodyR (by with_unfolding_all rfl)
+
+/-- … and the value is 7 -/
+example : sR3.heap.get 3 = .num (F64.ofNat 7) := by with_unfolding_all decide +kernel
+
+end examples
 
 end Jqawk.C07
